@@ -136,6 +136,8 @@ def subject(case):
             data, derrs = s.decode(xml, validation='lax', use_defaults=inst['use_defaults'],
                                    fill_missing=inst['fill_missing'])
             keys = sorted(k[1:] for k in (data or {}) if k.startswith('@') and not k.startswith('@xmlns'))
+            vals = {k[1:]: (None if v is None else int(v) if isinstance(v, (bool, int)) else str(v))
+                    for k, v in (data or {}).items() if k.startswith('@') and not k.startswith('@xmlns')}
         except Exception as e:  # noqa
             out.append({'exc': common.exc_class(e) + ': ' + str(e)[:200]})
             continue
@@ -155,7 +157,7 @@ def subject(case):
                 kinds.add('unavailable')
             else:
                 kinds.add('type')
-        out.append({'valid': valid, 'kinds': sorted(kinds), 'keys': keys, 'nerr': len(errs)})
+        out.append({'valid': valid, 'kinds': sorted(kinds), 'keys': keys, 'vals': vals, 'nerr': len(errs)})
     return {'build': 'ok', 'results': out}
 
 
@@ -330,6 +332,23 @@ def evaluate(ctx, cases):
         if want and got_extra != want_keys:
             problems.append(('primary', 'absent attributes reported in decoded data: %s, expected %s '
                              '(use_defaults=%s fill_missing=%s)' % (got_extra, want_keys, inst['use_defaults'], inst['fill_missing'])))
+        if want and got_extra == want_keys:
+            # the values of the absent attributes: the fixed value, else the default (when defaults are applied), else the filler
+            present = {n for n, _v in attrs}
+            for d in c['tmpl']['decls']:
+                n = tuple(d['name'])
+                if n in present or key_name(n) not in want_keys:
+                    continue
+                fixed, default = eff(d)
+                lexv = fixed if fixed is not None else default if (default is not None and inst['use_defaults']) else None
+                ty = decl_type(d)
+                exp = None if lexv is None else (canon(ty, lexv) if ty != 'xs:string' else lexv)
+                got = o.get('vals', {}).get(key_name(n))
+                if ty == 'xs:string' and got is not None:
+                    got = str(got)
+                if got != exp:
+                    problems.append(('primary', 'the absent attribute %s is reported with the value %r, its value constraint gives %r '
+                                     '(use_defaults=%s fill_missing=%s)' % (key_name(n), got, exp, inst['use_defaults'], inst['fill_missing'])))
         if o['kinds'] != mkinds:
             problems.append(('aux', 'error kinds impl=%s model=%s' % (o['kinds'], mkinds)))
         mf = sorted({PREFIX[{v: k3 for k3, v in NSCODE.items()}[a]] + {v: k3 for k3, v in LOCODE.items()}[b] for a, b in mfilled})
